@@ -20,17 +20,18 @@ import sys
 REPO = os.environ.get("VERIF_REPO", "/repo")
 VERIF = os.path.dirname(os.path.dirname(os.path.abspath(__file__)))
 NETS = ["rand1", "rand2", "material", "extreme"]
+NET_HARNESSES = ["h_eval"]
 
 VARIANTS = {
-    "plain": dict(cxx="g++", cc="gcc", flags="-O2 -g0"),
+    "plain": dict(cxx="g++", cc="gcc", flags="-O3 -g0"),
     "san": dict(cxx="clang++", cc="clang",
                 flags="-O1 -g -fsanitize=address,undefined -fno-sanitize-recover=undefined "
                       "-fno-omit-frame-pointer"),
     "tsan": dict(cxx="clang++", cc="clang", flags="-O1 -g -fsanitize=thread"),
-    "ssse3": dict(cxx="g++", cc="gcc", flags="-O2 -g0 -DUSE_SSSE3 -mssse3"),
-    "avx2": dict(cxx="g++", cc="gcc", flags="-O2 -g0 -DUSE_SSSE3 -DUSE_AVX2 -mssse3 -mavx2"),
+    "ssse3": dict(cxx="g++", cc="gcc", flags="-O3 -g0 -DUSE_SSSE3 -mssse3"),
+    "avx2": dict(cxx="g++", cc="gcc", flags="-O3 -g0 -DUSE_SSSE3 -DUSE_AVX2 -mssse3 -mavx2"),
     "avx512": dict(cxx="g++", cc="gcc",
-                   flags="-O2 -g0 -DUSE_SSSE3 -DUSE_AVX2 -DUSE_AVX512 -mssse3 -mavx2 "
+                   flags="-O3 -g0 -DUSE_SSSE3 -DUSE_AVX2 -DUSE_AVX512 -mssse3 -mavx2 "
                          "-mavx512f -mavx512bw -mavx512vnni"),
 }
 
@@ -119,6 +120,10 @@ def gen(variant):
             extra = " ".join(a for a in app_objs if not a.endswith("texel.cpp.o")) + " "
         w(f"build {name}: link {o} {extra}nets/nn_rand1.o libtexelutil.a libtexel.a libsched.a")
         targets.append(name)
+        if name in NET_HARNESSES:      # one executable per synthetic network
+            for n in NETS:
+                w(f"build {name}-{n}: link {o} {extra}nets/nn_{n}.o libtexelutil.a libtexel.a libsched.a")
+                targets.append(f"{name}-{n}")
     w("default " + " ".join(targets))
     path = os.path.join(bdir, "build.ninja")
     text = "\n".join(out) + "\n"
